@@ -390,7 +390,8 @@ func runC03(p *engine.Prog, r *engine.Report) {
 			oe := ownBase(fi, lk)
 			se := fi.ElemPath(fi.FieldPath(st, del, c.fScraping), c.fScraping.Type(), kt, lk)
 			j2a := engine.And(engine.EqAtom(fi.FieldPath(se, lk, c.fState), `"in_transfer"`), engine.EqAtom(fi.FieldPath(oe, lk, c.fState), `""`))
-			if ok, _ := fi.Implies(del.Block(), j2a); !ok {
+			for _, site := range c.decisionSites(del) {
+			if ok, _ := site.implies(fi, j2a); !ok {
 				continue
 			}
 			nH++
@@ -415,13 +416,14 @@ func runC03(p *engine.Prog, r *engine.Report) {
 				return false
 			}
 			var extra []string
-			for _, g := range fi.Guards(del.Block()) {
+			for _, g := range fi.Guards(site.blk) {
 				if !allowed(g) {
 					extra = append(extra, g)
 				}
 			}
 			r.Check(len(extra) == 0, "R3.3-handover-exact", fmt.Sprintf("hand-over delete#%d in %s", nH, engine.FuncName(fn)), "removal of the in-transfer copy at "+c.at(del),
 				"no condition beyond: discovered, both scrape counts reached, distinct non-nil in-sync holder, own in-transfer, other normal", "additional necessary conditions: "+strings.Join(extra, " ∧ "))
+			}
 		}
 	}
 }
